@@ -1,3 +1,142 @@
 import Driver.Common
-/-! Driver for property C07 (stub: the model for this property is not built yet). -/
-def main : IO Unit := Driver.run (fun (s : Unit) _ => (s, "unimplemented")) ()
+import TxdbusModel.Auth.Client
+import TxdbusModel.Auth.ClientSha1
+import TxdbusModel.Auth.SpecServerRef
+import TxdbusModel.Auth.ClientHandshake
+/-!
+Driver for property C07: runs the client authenticator model on one scenario per input line.
+
+  run <unix 0|1> <user hex> <dir> <rnd hex> <nfiles> (<ctx hex> <content hex | !>)* <nchunks> <chunk hex>*
+        dir = none | <st_mode decimal>:<owned 0|1>        `!` = open() raises
+     -> <events> | auth=<0|1> disc=<0|1> buffer=<hex> binary=<hex> mech=<hex|none> left=<n> guid=<hex|none>
+        events: N | R:<hex> | S:<hex> | C | A      (the text after `ERROR ` of a cookie failure is the
+        name of the failure kind)
+
+  hs <unix 0|1> <accept ext 0|1> <accept cookie 0|1> <accept anon 0|1> <fdAgree 0|1> <guid hex-as-hex>
+     <user hex> <dir> <rnd hex> <nfiles> (<ctx> <content>)* <cookieCtx hex> <cookieId hex> <cookie hex> <challenge hex>
+     -> <transcript: C:<hex> / S:<hex> …> | client=<0|1> server=<state> disc=<0|1>
+-/
+open Txdbus.AuthClient
+
+namespace DrvC07
+
+def errName : CookieErr → Bytes
+  | .oddLength => b!"oddLength" | .nonHex => b!"nonHex" | .arity => b!"arity" | .stat => b!"stat"
+  | .perms => b!"perms" | .owner => b!"owner" | .ctxAscii => b!"ctxAscii" | .openFile => b!"openFile"
+  | .noCookie => b!"noCookie"
+
+def hx (bs : Bytes) : String := Driver.bytesToHex bs
+
+def evStr : Ev → String
+  | .nul => "N" | .recv l => "R:" ++ hx l | .send l => "S:" ++ hx l | .close => "C" | .authenticated => "A"
+
+def b01 (b : Bool) : String := if b then "1" else "0"
+
+def parseDir (s : String) : Option (Option (Nat × Bool)) :=
+  if s == "none" then some none else
+  match s.splitOn ":" with
+  | [m, o] => match m.toNat? with
+    | some mode => some (some (mode, o == "1"))
+    | none => none
+  | _ => none
+
+/-- Parse `<nfiles> (<ctx> <content>)*`; returns the lookup and the remaining tokens. -/
+def parseFiles (toks : List String) : Option ((Bytes → Option Bytes) × List String) :=
+  match toks with
+  | [] => none
+  | n :: rest =>
+    match n.toNat? with
+    | none => none
+    | some k =>
+      let rec go (k : Nat) (toks : List String) (acc : List (Bytes × Option Bytes)) :
+          Option (List (Bytes × Option Bytes) × List String) :=
+        match k, toks with
+        | 0, toks => some (acc.reverse, toks)
+        | k + 1, c :: v :: toks =>
+          match Driver.hexToBytes? c with
+          | none => none
+          | some ctx =>
+            if v == "!" then go k toks ((ctx, none) :: acc)
+            else match Driver.hexToBytes? v with
+              | some content => go k toks ((ctx, some content) :: acc)
+              | none => none
+        | _, _ => none
+      match go k rest [] with
+      | none => none
+      | some (tbl, toks) =>
+        some ((fun ctx => match tbl.find? (fun e => e.1 == ctx) with
+                          | some e => e.2
+                          | none => none), toks)
+
+def parseEnv (toks : List String) : Option (Env × List String) :=
+  match toks with
+  | user :: dir :: rnd :: rest =>
+    match Driver.hexToBytes? user, parseDir dir, Driver.hexToBytes? rnd, parseFiles rest with
+    | some u, some d, some r, some (files, toks) =>
+      some ({ user := u, dirStat := d, file := files, rnd := r, sha1 := Sha1.sha1, errText := errName }, toks)
+    | _, _, _, _ => none
+  | _ => none
+
+def parseChunks (toks : List String) : Option (List Bytes) :=
+  match toks with
+  | [] => none
+  | n :: rest =>
+    match n.toNat? with
+    | none => none
+    | some k => if rest.length != k then none else rest.mapM Driver.hexToBytes?
+
+def optHex : Option Bytes → String
+  | none => "none"
+  | some b => hx b
+
+def showProto (p : Proto) : String :=
+  " ".intercalate (p.trace.map evStr) ++ " | auth=" ++ b01 p.authenticated ++ " disc=" ++ b01 p.disconnecting
+    ++ " buffer=" ++ hx p.buffer ++ " binary=" ++ hx p.binary ++ " mech=" ++ optHex p.auth.authMech
+    ++ " left=" ++ toString p.auth.authOrder.length
+    ++ " guid=" ++ optHex p.auth.guid
+
+def stStr : SpecServer.St → String
+  | .waitingForAuth => "WaitingForAuth" | .waitingForData _ => "WaitingForData"
+  | .waitingForBegin => "WaitingForBegin" | .authenticated => "Authenticated" | .closed => "Closed"
+
+def cmdRun (toks : List String) : String :=
+  match toks with
+  | unix :: rest =>
+    match parseEnv rest with
+    | some (env, toks) =>
+      match parseChunks toks with
+      | some chunks =>
+        showProto (clientRun Txdbus.Gen.ClientAuth.preference (unix == "1") (fun _ => env) chunks)
+      | none => "error bad-chunks"
+    | none => "error bad-env"
+  | _ => "error bad-run"
+
+def cmdHs (toks : List String) : String :=
+  match toks with
+  | unix :: ae :: ac :: aa :: fd :: guid :: rest =>
+    match Driver.hexToBytes? guid, parseEnv rest with
+    | some g, some (env, [cctx, cid, cookie, chal]) =>
+      match Driver.hexToBytes? cctx, Driver.hexToBytes? cid, Driver.hexToBytes? cookie, Driver.hexToBytes? chal with
+      | some cctx, some cid, some cookie, some chal =>
+        let cfg : SpecServer.Cfg :=
+          { accepts := fun m => match m with
+              | .external => ae == "1" | .cookie => ac == "1" | .anonymous => aa == "1",
+            fdAgree := fd == "1", guidHex := g, cookieCtx := cctx, cookieId := cid, cookie := cookie,
+            challenge := chal, sha1 := Sha1.sha1 }
+        let sys := handshake Txdbus.Gen.ClientAuth.preference (unix == "1") cfg (fun _ => env) 32
+        " ".intercalate (sys.transcript.map fun (c, l) => (if c then "C:" else "S:") ++ hx l)
+          ++ " | client=" ++ b01 sys.client.authenticated ++ " server=" ++ stStr sys.server
+          ++ " disc=" ++ b01 sys.client.disconnecting
+      | _, _, _, _ => "error bad-cookie"
+    | _, _ => "error bad-hs-env"
+  | _ => "error bad-hs"
+
+def step (_ : Unit) (line : String) : Unit × String :=
+  match Driver.words line with
+  | "run" :: toks => ((), cmdRun toks)
+  | "hs" :: toks => ((), cmdHs toks)
+  | _ => ((), "error unknown-command")
+
+end DrvC07
+
+def main : IO Unit := Driver.run DrvC07.step ()
